@@ -401,13 +401,23 @@ class USBStreamOutEndpoint(Elaboratable):
             fifo.read_commit  .eq(1)
         ]
 
+        # Stores whether the packet we're currently receiving is a full (max-length) packet.
+        # Cleared with each token; so a zero-length packet counts as a short one.
+        packet_is_full = Signal()
+        with m.If(tokenizer.new_token):
+            m.d.usb += packet_is_full.eq(0)
+
         # Count bytes in packet.
         with m.If(fifo.write_en):
             m.d.usb += rx_cnt.eq(rx_cnt + 1)
 
-            # Set the transfer active flag depending on whether this is a full packet.
             with m.If(rx_last):
-                m.d.usb += transfer_active.eq(full_packet)
+                m.d.usb += packet_is_full.eq(full_packet)
+
+        # Set the transfer active flag depending on whether we've just accepted a full packet.
+        # Packets that are discarded (bad CRC, no room) or skipped don't affect the transfer.
+        with m.If(data_response_requested & data_accepted):
+            m.d.usb += transfer_active.eq(packet_is_full)
 
         # We'll set the overflow flag if we're receiving data we don't have room for.
         with m.If(data_is_lost):
